@@ -545,6 +545,16 @@ func (w *Writer) setXRef(ref Reference, entry *xRefEntry) error {
 }
 
 func (w *Writer) writeXRefTable(xRefDict Dict) error {
+	// An entry of a cross-reference table has exactly ten digits for the
+	// offset (PDF 32000-1:2008, 7.5.4): an object which starts at byte 10^10
+	// or later cannot be recorded (a longer number would shift this and all
+	// following entries).
+	for _, entry := range w.xref {
+		if entry != nil && entry.InStream == 0 && entry.Pos > 9999999999 {
+			return errors.New("file too large for a cross-reference table (object offset above 9999999999)")
+		}
+	}
+
 	_, err := fmt.Fprintf(w.w, "xref\n0 %d\n", w.nextRef)
 	if err != nil {
 		return err
